@@ -299,7 +299,7 @@ func TestGetOrAddStress(t *testing.T) {
 			}()
 		}
 		close(start)
-		wg.Wait()
+		world.WaitOrDiagnose(t, &wg, "C07/concurrent", "concurrent GetOrAddFeature calls")
 		k := missed.Load()
 		distinct := int64(1)
 		if r%3 == 2 {
